@@ -111,6 +111,8 @@ func ptrOf(v string) interface{} {
 		return &t.W
 	case "V":
 		return &t.V
+	case "U":
+		return &t.U
 	case "L1", "L2":
 		return t.Ptr(v)
 	}
@@ -451,7 +453,12 @@ func alphabet(thorough bool) ([]Op, []string) {
 	if thorough {
 		a = append(a, Op{K: kApply, V: "V", M: "Sum8"}, Op{K: kApply, V: "V", M: "Join"}, Op{K: kAsReturn, V: "V", M: "Join"})
 	}
-	vars = append(vars, "V", "L1", "L2")
+	vars = append(vars, "V", "L1", "L2", "U")
+	// an interface whose exported method set is not in byte order (non-ASCII initial) next to unexported methods
+	a = append(a, Op{K: kApply, V: "U", M: "Énumérer"}, Op{K: kApply, V: "U", M: "apply"})
+	if thorough {
+		a = append(a, Op{K: kAsReturn, V: "U", M: "Zeta"}, Op{K: kAsReturn, V: "U", M: "zap"})
+	}
 	// two function-local interface types of the same printed name, common method at different positions
 	a = append(a, Op{K: kApply, V: "L1", M: "Get"}, Op{K: kApply, V: "L2", M: "Get"})
 	if thorough {
